@@ -264,6 +264,70 @@ def permutation_worker(seed):
     return fail, problems
 
 
+class _ShuffledScandir:
+    def __init__(self, it, r):
+        with it:
+            self._l = list(it)
+        r.shuffle(self._l)
+        self._i = iter(self._l)
+
+    def __iter__(self):
+        return self
+
+    def __next__(self):
+        return next(self._i)
+
+    def __enter__(self):
+        return self
+
+    def __exit__(self, *a):
+        return False
+
+    def close(self):
+        pass
+
+
+class _shuffled_listing:
+    """every directory listing of this process in a seeded shuffled order (r is None: the operating system's order)"""
+
+    def __init__(self, r):
+        self.r = r
+
+    def __enter__(self):
+        import os
+        from pathlib import Path
+
+        if self.r is None:
+            return self
+        r = self.r
+        self.saved = (Path.iterdir, os.listdir, os.scandir)
+        o_iter, o_list, o_scan = self.saved
+
+        def iterdir(p):
+            l = list(o_iter(p))
+            r.shuffle(l)
+            return iter(l)
+
+        def listdir(*a, **k):
+            l = list(o_list(*a, **k))
+            r.shuffle(l)
+            return l
+
+        def scandir(*a, **k):
+            return _ShuffledScandir(o_scan(*a, **k), r)
+
+        Path.iterdir, os.listdir, os.scandir = iterdir, listdir, scandir
+        return self
+
+    def __exit__(self, *a):
+        import os
+        from pathlib import Path
+
+        if self.r is not None:
+            Path.iterdir, os.listdir, os.scandir = self.saved
+        return False
+
+
 def scan_order_worker(seed):
     """shuffled directory enumeration + permuted exclusion patterns"""
     from pathlib import Path
@@ -297,6 +361,22 @@ def scan_order_worker(seed):
     if outs[0] != outs[2] or outs[1] != outs[3]:
         problems.append({"what": "two scans of the same tree differ (directory enumeration order / exclusion pattern order)", "files": dict(tree),
                          "patterns": pats, "outs": outs})
+    # the same under a level limit (no twins here: with a limit a twin pair is outside C09's domain): several imports - also
+    # ones that name no module - flatten onto one pair of modules, and which file is met first must not matter.  Every way of
+    # listing a directory is shuffled (Path.iterdir, os.listdir, os.scandir and with it os.walk).
+    tree2 = sc.gen_tree(rng, comps=["a", "b", "core", "db", "m", "util"], extra_files=False)
+    sc.fill_sources(rng, tree2, externals=True)
+    dirs2 = sorted(p for p, v in tree2.items() if v is None)
+    lim = rng.randint(1, 2)
+    mp2 = "proj" if rng.random() < 0.7 else rng.choice(dirs2)
+    louts = []
+    with sc.write_project(tree2) as proj:
+        for k in range(3):
+            with _shuffled_listing(random.Random(seed * 17 + k) if k else None):
+                louts.append(sc.real_scan(proj, "proj", mp2, level_limit=lim, exclude_external_libraries=(seed % 3 != 0)))
+    if len(set(louts)) > 1:
+        problems.append({"what": "two level-limited scans of the same tree differ (directory enumeration order)", "files": dict(tree2),
+                         "module_path": mp2, "level_limit": lim, "outs": louts})
     # proper regular expressions as exclusions, with capture groups and a back-reference: every listing order must exclude the same files
     rx = [r".*/(\w+)/\1\.py$", r".*/(gen|tests)(_\w+)?$", r".*/" + re.escape(rng.choice(names)) + r"$"]
     routs = []
@@ -397,6 +477,14 @@ def run(ctx: Ctx):
             p.update({"kind": "property-violation", "seed": base + 104729 * j})
             ctx.violations.append(p)
     s.finish()
+
+    if not ctx.violations:
+        from ..rules_common import reuse_stream
+
+        s = Stream(ctx, "(i') one rule object applied to a first architecture and then to a second one (larger then smaller and smaller then "
+                        "larger; names, regexes, 'anything' rules over a module and its sub module) vs a fresh rule object")
+        reuse_stream(ctx, s, ctx.size(1000, 15000))
+        s.finish()
 
     s = Stream(ctx, "(iii) 8 interpreters with PYTHONHASHSEED = 0..7")
     n = ctx.size(150, 1500)
